@@ -356,6 +356,114 @@ def row_provenance(P, rep, F, row_loop, call, dim, rule):
         rep.ok(rule, "dim %d: query uses columns 0..%d as coordinates and column %d as depth of the same row" % (dim, dim - 1, dim), F.nloc(call), F.qn)
 
 
+def dat_input_discipline(P, rep, rule="DAT.input"):
+    """how gwb-dat reads its data file: every line reaches the tokenizer unchanged, options do not depend on their order,
+    every non-empty non-comment row reaches the arity check, the 2D refusal of 'convert spherical' precedes all output"""
+    rep.rule(rule, "gwb-dat: (a) the line read by getline is handed to the tokenizer unmodified; (b) inside the loop that parses option "
+                   "lines no option variable is read (each option depends on its own line only, so the order of option lines is "
+                   "irrelevant); (c) the row loops skip only empty rows and rows starting with '#', every other row meets the release-active "
+                   "`dim + 1 entries` check; (d) in 2D a release-active refusal of 'convert spherical' comes before the first output")
+    F = main_of(P, "gwb-dat")
+    R = lambda n: norm.render(P, n, nocast=True).replace(" ", "")
+    # (a) the getline target
+    gl = [x for x in F.walk() if x.get("k") == "CallExpr" and P.d(x.get("callee")).get("n") == "getline"]
+    if len(gl) != 1:
+        rep.unknown(rule, "%d getline calls in gwb-dat" % len(gl))
+    else:
+        tk = sc(gl[0]["c"][2]).get("r")
+        muts = []
+        for x in F.walk():
+            if x.get("k") == "CXXMemberCallExpr" and x["c"][0].get("k") == "MemberExpr" and x["c"][0].get("c") and astq.is_ref_to(x["c"][0]["c"][0], tk):
+                if not P.d(x.get("callee")).get("const"):
+                    muts.append(x)
+            if x.get("k") in ("BinaryOperator", "CompoundAssignOperator", "CXXOperatorCallExpr") and x.get("op") in norm.ASSIGN_OPS and astq.is_ref_to(x["c"][0], tk):
+                muts.append(x)
+        if muts:
+            rep.violation(rule, "the line buffer is modified before it is tokenised: %s" % R(muts[0])[:80], F.nloc(muts[0]), F.qn, norm.render(P, muts[0])[:140],
+                          "part of a line of the data file is dropped or rewritten: options or coordinates are silently lost", key=rule + "|line-mutated",
+                          witness="an indented option line / a line containing the affected character")
+        else:
+            rep.ok(rule, "(a) the getline buffer is only read (tokenised) after it is filled", F.nloc(gl[0]), F.qn)
+    # (b) the option loop
+    opt_names = ("dim", "compositions", "grain_compositions", "n_grains", "convert_spherical")
+    opt_keys = {}
+    for nm in opt_names:
+        try:
+            opt_keys[var_by_name(F, nm)] = nm
+        except AnalysisBroken:
+            pass
+    loops = []
+    for x in F.walk():
+        if x.get("k") == "CXXForRangeStmt":
+            w = {sc(y["c"][0]).get("r") for y in F.walk(x["c"][-1]) if y.get("k") in ("BinaryOperator", "CXXOperatorCallExpr") and y.get("op") == "=" and sc(y["c"][0]).get("k") == "DeclRefExpr"}
+            if len(w & set(opt_keys)) >= 3:
+                loops.append(x)
+    if len(loops) != 1 or len(opt_keys) < 5:
+        rep.unknown(rule, "option loop of gwb-dat not identified (%d candidates, %d option variables)" % (len(loops), len(opt_keys)))
+    else:
+        L = loops[0]
+        reads = []
+        for y in F.walk(L["c"][-1]):
+            if y.get("k") == "DeclRefExpr" and y.get("r") in opt_keys:
+                par = F.parent.get(y["i"])
+                if par is not None and par.get("k") in ("BinaryOperator", "CXXOperatorCallExpr") and par.get("op") == "=" and sc(par["c"][0]) is y:
+                    continue
+                reads.append(y)
+        if reads:
+            y = reads[0]
+            st = astq.enclosing(F, y, ("IfStmt", "DoStmt", "BinaryOperator")) or y
+            rep.violation(rule, "the option loop reads `%s` while options are still being parsed" % opt_keys[y["r"]], F.nloc(y), F.qn, norm.render(P, st)[:140],
+                          "the outcome depends on the order of the option lines in the file", key="%s|order|%s" % (rule, opt_keys[y["r"]]),
+                          witness="the same file with the two option lines swapped")
+        else:
+            rep.ok(rule, "(b) option loop: %d option variables assigned, none read" % len(opt_keys), F.nloc(L), F.qn)
+    # (c) row filters
+    nrows = 0
+    for x in F.walk():
+        if x.get("k") != "IfStmt":
+            continue
+        asserts_ = [y for y in F.walk(x["c"][1]) if y.get("k") == "DoStmt" and y.get("m") == "WBAssertThrow" and "dim+1" in R(y).replace("(", "").replace(")", "")]
+        c = R(x["c"][0])
+        if not asserts_ or "data[" not in c or "size()" not in c:
+            continue
+        direct = [y for y in asserts_ if astq.enclosing(F, y, ("IfStmt",)) is x]
+        if not direct:
+            continue
+        nrows += 1
+        m = re.match(r'^\(\(data\[(\w+)\]\.size\(\)>0\)&&\(data\[\1\]\[0\]!="#"\)\)$', c)
+        m2 = re.match(r'^\(\(!data\[(\w+)\]\.empty\(\)\)&&\(data\[\1\]\[0\]!="#"\)\)$', c)
+        first = astq.stmts_of(x["c"][1])[0] if astq.stmts_of(x["c"][1]) else None
+        if (m or m2) and first is direct[0]:
+            rep.ok(rule, "(c) row loop at %s: only empty and '#' rows are skipped, the arity check comes first" % F.nloc(x), F.nloc(x), F.qn)
+        else:
+            rep.violation(rule, "row filter is `%s`%s" % (c[:80], "" if first is direct[0] else " and the arity check is not the first statement"), F.nloc(x), F.qn, c,
+                          "rows other than empty lines and comments are skipped silently: a truncated or mis-dimensioned row disappears from the table",
+                          key="%s|rowfilter|%d" % (rule, nrows), witness="a row with fewer than dim+1 entries")
+    if nrows != 2:
+        rep.unknown(rule, "%d row loops with the `dim + 1 entries` check (2 expected)" % nrows)
+    # (d) the 2D refusal
+    sws = [x for x in F.walk() if x.get("k") == "SwitchStmt"]
+    okd = False
+    where = F.loc
+    for sw in sws:
+        cases = astq.switch_cases(sw)
+        st2 = cases.get(2)
+        if st2:
+            where = F.nloc(st2[0])
+            for st in st2:
+                if st.get("k") == "DoStmt" and st.get("m") == "WBAssertThrow" and "convert_spherical" in R(st):
+                    okd = True
+                    break
+                if any(y.get("k") == "DeclRefExpr" and P.d(y["r"]).get("qn") == "std::cout" for y in F.walk(st)):
+                    break
+    if okd:
+        rep.ok(rule, "(d) case dim == 2 refuses 'convert spherical' before any output", where, F.qn)
+    else:
+        rep.violation(rule, "case dim == 2 does not refuse 'convert spherical' before its first output", where, F.qn, "",
+                      "a 2D file asking for spherical conversion is answered with a Cartesian table instead of an error", key=rule + "|refusal2d",
+                      witness="2D data file with '# convert spherical = true'")
+
+
 # ------------------------------------------------------------------------------------------------
 def index_guards(P, rep, tu, rule="G3.index"):
     """every literal subscript on a vector<string> line is dominated by a size test implying the index is in range"""
@@ -641,6 +749,89 @@ def gwb_grid(P, rep, widths, rule="LAYOUT.L4.grid"):
                           witness="--filtered on any world")
 
 
+def base64_length(P, rep, rule="VTU.base64-length"):
+    """the offsets of the appended base64 blocks: encodedNumberOfBytes(n) == 4 * ceil(n / 3)"""
+    rep.rule(rule, "vtu11::encodedNumberOfBytes(n) is 4*ceil(n/3) for every n >= 1 and 0 for n = 0 (proved over the residues n = 3k+1, 3k+2, "
+                   "3k+3 with C++ integer division); the appended-data writer advances its offsets by exactly this amount, so a wrong "
+                   "value makes every later DataArray of a Base64Appended file start at the wrong byte")
+    fs = P.funcs_named("vtu11::encodedNumberOfBytes")
+    fs = [f for f in fs if f.body is not None]
+    if not fs:
+        raise AnalysisBroken("vtu11::encodedNumberOfBytes not found in gwb-grid's translation unit")
+    F = fs[0]
+    nk = F.params[0]
+    n, k = sp.Symbol("n", integer=True, positive=True), sp.Symbol("k", integer=True, nonnegative=True)
+
+    def tr(e):
+        e = sc(e)
+        kd = e.get("k")
+        if kd == "IntegerLiteral":
+            return sp.Integer(int(e["v"]))
+        if kd == "DeclRefExpr" and e.get("r") == nk:
+            return n
+        if kd == "ParenExpr":
+            return tr(e["c"][0])
+        if kd == "BinaryOperator" and e.get("op") in ("+", "-", "*", "/"):
+            a, b = tr(e["c"][0]), tr(e["c"][1])
+            if a is None or b is None:
+                return None
+            return {"+": a + b, "-": a - b, "*": a * b, "/": sp.floor(a / b)}[e["op"]]
+        return None
+    ifs = [x for x in astq.stmts_of(F.body) if x.get("k") == "IfStmt"]
+    rets = [x for x in F.walk() if x.get("k") == "ReturnStmt" and x.get("c")]
+    nonzero = zero = None
+    if len(ifs) == 1:
+        c = norm.render(P, ifs[0]["c"][0], nocast=True).replace(" ", "")
+        then_r = [x for x in F.walk(ifs[0]["c"][1]) if x.get("k") == "ReturnStmt"]
+        else_r = [x for x in rets if x not in then_r]
+        if c in ("(rawNumberOfBytes!=0)", "(rawNumberOfBytes>0)", "(0!=rawNumberOfBytes)") and len(then_r) == 1 and len(else_r) == 1:
+            nonzero, zero = then_r[0], else_r[0]
+        elif c in ("(rawNumberOfBytes==0)", "(0==rawNumberOfBytes)") and len(then_r) == 1 and len(else_r) == 1:
+            zero, nonzero = then_r[0], else_r[0]
+    elif not ifs and len(rets) == 1:
+        nonzero = zero = rets[0]
+    if nonzero is None:
+        rep.unknown(rule, "encodedNumberOfBytes: shape not recognised")
+        return
+    e = tr(nonzero["c"][0])
+    z = tr(zero["c"][0])
+    if e is None or z is None:
+        rep.unknown(rule, "encodedNumberOfBytes: expression form not recognised: %s" % norm.render(P, nonzero["c"][0])[:80])
+        return
+    bad = []
+    for r in (1, 2, 3):
+        got = sp.simplify(e.subs(n, 3 * k + r))
+        if sp.simplify(got - 4 * (k + 1)) != 0:
+            bad.append("n = 3k+%d: %s instead of %s" % (r, got, 4 * (k + 1)))
+    z0 = z.subs(n, 0) if zero is not nonzero else e.subs(n, 0)
+    if sp.simplify(z0) != 0:
+        bad.append("n = 0: %s instead of 0" % z0)
+    if bad:
+        rep.violation(rule, "encodedNumberOfBytes: %s" % "; ".join(bad), F.nloc(nonzero), F.qn, norm.render(P, nonzero["c"][0])[:120],
+                      "offsets of the appended data arrays are wrong: the Base64Appended .vtu is not well formed for some node counts",
+                      key=rule + "|closed-form", witness="vtu_output_format = Base64Appended with a data block whose byte count is in the affected residue class")
+    else:
+        rep.ok(rule, "encodedNumberOfBytes(n) = 4*ceil(n/3) on all residues, 0 at 0", F.loc, F.qn)
+    # the writer advances its offset by exactly encodedNumberOfBytes(rawBytes + sizeof(header))
+    uses = 0
+    for G in P.funcs.values():
+        if G.body is None or not G.qn.startswith("vtu11::"):
+            continue
+        for x in G.walk():
+            if x.get("k") == "CallExpr" and x.get("callee") == F.key:
+                uses += 1
+                par = G.parent.get(x["i"])
+                while par is not None and par.get("k") in norm.CASTS + ("ImplicitCastExpr",):
+                    par = G.parent.get(par["i"])
+                a = norm.render(P, x["c"][1], nocast=True).replace(" ", "")
+                if par is not None and par.get("k") == "CompoundAssignOperator" and par.get("op") == "+=" and "rawBytes" in a and ("sizeof" in a or "UnaryExprOrTypeTraitExpr" in a):
+                    rep.ok(rule, "%s: offset += encodedNumberOfBytes(%s)" % (G.qn.split("::")[-1], a[:40]), G.nloc(x), G.qn)
+                else:
+                    rep.violation(rule, "%s uses encodedNumberOfBytes as %s" % (G.qn, norm.render(P, par if par else x)[:80]), G.nloc(x), G.qn, a,
+                                  "offset of the next appended block does not include header and payload of this one", key="%s|use|%s" % (rule, G.qn))
+    rep.floor(rule, uses, 1, "offset computations in the appended writer")
+
+
 # ------------------------------------------------------------------------------------------------
 def filter_copy(P, rep, rule="FILTER"):
     """structure of filter_vtu_mesh: kept vertices carry all their data sets unchanged; connectivity is
@@ -667,6 +858,35 @@ def filter_copy(P, rep, rule="FILTER"):
         rep.unknown(rule, "filter_vtu_mesh: anchor locals %s not found (renamed?)" % sorted(missing))
         return
     problems = []
+    # (0) both per-cell vertex loops visit all vertices of the cell: idx in [cellidx*n, (cellidx+1)*n), n = (dim == 3) ? 8 : 4
+    nv = [x for x in F.walk() if x.get("k") == "VarDecl" and x.get("n") == "n_vert_per_cell" and x.get("c")]
+    if len(nv) != 1 or R(nv[0]["c"][0]) not in ("((dim==3)?8:4)", "((dim==2)?4:8)", "((3==dim)?8:4)"):
+        problems.append("n_vert_per_cell is %s (expected (dim==3)?8:4)" % (R(nv[0]["c"][0]) if nv else "not found"))
+    else:
+        symv = norm.Sym(P, F, inline_locals=False)
+        vloops = []
+        for x in F.walk():
+            if x.get("k") == "ForStmt" and x["c"][0] is not None and x["c"][0].get("k") == "DeclStmt":
+                iv = x["c"][0]["c"][0]
+                if iv.get("k") == "VarDecl" and iv.get("c") and any(y.get("k") == "DeclRefExpr" and y.get("n") == "cellidx" for y in F.walk(iv["c"][0])):
+                    vloops.append((x, iv))
+        if len(vloops) != 2:
+            problems.append("%d per-cell vertex loops (2 expected: tag scan and copy)" % len(vloops))
+        for x, iv in vloops:
+            cond = sc(x["c"][1])
+            good = False
+            if cond is not None and cond.get("k") == "BinaryOperator" and cond.get("op") == "<" and astq.is_ref_to(cond["c"][0], iv["r"]):
+                n_ = symv(nv[0]) if False else None
+                lo, hi = sp.expand(symv(iv["c"][0])), sp.expand(symv(cond["c"][1]))
+                d = sp.expand(hi - lo)
+                nsym = [a for a in d.free_symbols if str(a).startswith("n_vert_per_cell")]
+                csym = [a for a in lo.free_symbols if str(a).startswith("cellidx")]
+                if len(nsym) == 1 and len(csym) == 1 and d == nsym[0] and sp.expand(lo - csym[0] * nsym[0]) == 0:
+                    good = True
+                inc = R(x["c"][2]) if x["c"][2] is not None else ""
+                good = good and inc.strip("()") in ("++idx", "idx++", "idx+=1")
+            if not good:
+                problems.append("vertex loop at line %s runs `%s ; %s`, not over [cellidx*n, (cellidx+1)*n)" % (x.get("l"), R(iv["c"][0]), R(x["c"][1])))
     # (a) data copy loop
     pushes = []
     for n in F.walk():
